@@ -3,6 +3,7 @@ package jsonrpc2
 import (
 	"context"
 	"encoding/json"
+	"errors"
 	"fmt"
 	"net"
 	"sync"
@@ -163,6 +164,9 @@ func (r *Remote) Call(ctx context.Context, result interface{}, method string, pa
 	resp, err := r.receive(ctx, req.ID)
 	if err != nil {
 		return err
+	}
+	if resp.Response == nil {
+		return errors.New("invalid response: missing result or error")
 	}
 	return resp.UnmarshalResult(result)
 }
